@@ -170,14 +170,26 @@ class Source:
             k += 1
         return limit
 
-    def region(self, name, first, last, within=None, ordinal=0, first_ordinal=0, until=None, after_loop=None):
+    def after_stmt(self, lead, lo, hi):
+        """offset of the first statement that follows the statement starting with `lead`"""
+        p = self._find_line(lead, lo, hi, 0)
+        a = self._stmt_end(p, hi)
+        while a < hi and self.masked[a] in " \t\n":
+            a += 1
+        if a >= hi:
+            raise AnchorLost(f"{self.path}: nothing follows the statement starting `{lead}`")
+        return a
+
+    def region(self, name, first, last, within=None, ordinal=0, first_ordinal=0, until=None, after_loop=None, after=None):
         """Text of the statements of fn `name` from the statement whose line
         starts with `first` through the statement whose line starts with `last`
         (or through the end of the body when last == 'END'; or, with `until`,
         up to but excluding the first later line that starts with `until`)."""
         _, o, c = self.find_fn(name, within, ordinal)
         body_lo, body_hi = o + 1, c
-        if after_loop is not None:
+        if after is not None:
+            a = self.after_stmt(after, body_lo, body_hi)
+        elif after_loop is not None:
             # start at the first statement that follows the after_loop-th loop of the function
             _, le = self.nth_loop(name, after_loop, within, ordinal)
             a = le
